@@ -193,8 +193,8 @@ def created_exclusively(ctx, fn, operand, callers):
             for a in latoms:
                 if a[0] == 'call' and a[2] in F.by_path:
                     g = F.by_path[a[2]]
-                    for p, v in const_args(g, lf.term(a[1])).items():
-                        if v and _creates_new_under(F, ctx, g, p):
+                    for p, v in const_args(g, lf.term(a[1]), lf).items():
+                        if v and _creates_new_under(F, ctx, g, p, v):
                             return g.qual
                 if a[0] == 'arg' and lctx:
                     cfn, cbb = lctx[-1][0], lctx[-1][1]
@@ -294,15 +294,31 @@ def _is_len_zero_test(fn, du, discr):
     return False
 
 
-def _creates_new_under(F, ctx, g, p):
-    """does local function g call OpenOptions::create_new(true) only under its bool parameter p being true?"""
+def _creates_new_under(F, ctx, g, p, v=True):
+    """does local function g call OpenOptions::create_new(true) exactly when its mode parameter p has the value v (a bool, or ('v', i) for the i-th variant of a
+    unit-like enum such as `FileMode::Create`)?"""
     from reach import pruned_blocks
-    on = pruned_blocks(g, {p: True})
-    off = pruned_blocks(g, {p: False})
+    if v is False:
+        return False
+    on = pruned_blocks(g, {p: v}, F)
+    others = []
+    if isinstance(v, bool):
+        others = [not v]
+    else:
+        adt = F.adt(last_seg(strip_generics(g.locals[p]['ty'])))
+        if not adt:
+            return False
+        others = [('v', x['vi']) for x in adt['variants'] if x['vi'] != v[1]]
+    off = set()
+    for o in others:
+        off |= set(pruned_blocks(g, {p: o}, F))
     found = False
-    for bb, t, c in calls_named(F, g, 'OpenOptions::create_new'):
-        if len(t['args']) > 1 and op_const_val(t['args'][1]) == 1 and bb in on and bb not in off:
-            found = True
+    for gg in [g] + [h for h in F.reachable_fns([g]) if h is not g and h.kind == 'Fn' and len(h.blocks) < 60]:
+        if gg is not g:
+            continue
+        for bb, t, c in calls_named(F, gg, 'OpenOptions::create_new'):
+            if len(t['args']) > 1 and op_const_val(t['args'][1]) == 1 and bb in on and bb not in off:
+                found = True
     return found
 
 
